@@ -1071,7 +1071,7 @@ func genC15(r *R, n int, tier string, out *Out) {
 		}
 		if i%7 == 3 {
 			// reverse-order completion (ForEachAsync of lists and objects), mostly on one processor
-			out.emit(asyncCase(r, pickOf(r, []int{0, 2}), pickOf(r, []int{2, 3, 4, 12}), pickOf(r, []int{1, 1, 2, 16}), 5))
+			out.emit(asyncCase(r, pickOf(r, []int{0, 2}), pickOf(r, []int{2, 3, 4, 12, 12, 70, 300, 1030}), pickOf(r, []int{1, 1, 2, 16}), 5)) // (also beyond any plausible worker-pool size)
 			continue
 		}
 		out.emit(asyncCase(r, r.Intn(4), pickOf(r, sizes), pickOf(r, procs), r.Intn(5)))
